@@ -173,6 +173,39 @@ pub fn run(tier: &str, seed: u64, s: &mut Sink) {
         let w = (r.next() as u32).to_le_bytes();
         emit_whole(s, "word-random", &w);
     }
+    // words followed by valid data: a word that is neither timestamp, marker nor the scaler tag must stop the
+    // parse with everything from it on left untouched, whatever follows; in particular tag-like words whose low
+    // 24 bits look like another block length, followed by that many words
+    for top in [0x00u8, 0x3C, 0x7F, 0x80 + 58, 0x80 + 59, 0xBB, 0xFD, 0xFE, 0xFF] {
+        for n in [0u32, 1, 2, 58, 59, 60, 61, 62, 63, 64, 100, 255, 256, 0x3C00, 0x3C0000, 0xFFFFFF] {
+            let w = (n | ((top as u32) << 24)).to_le_bytes();
+            for tail_words in [0usize, 1, 59, 60, 61, 62, 65, n.min(300) as usize, n.min(300) as usize + 2] {
+                let mut b = Vec::new();
+                if r.chance(1, 2) {
+                    b.extend(ts_word(&mut r));
+                }
+                b.extend(w);
+                for _ in 0..tail_words {
+                    if r.chance(3, 4) {
+                        b.extend(ts_word(&mut r));
+                    } else {
+                        b.extend(mk_word(&mut r));
+                    }
+                }
+                emit_whole(s, "word-then-tail", &b);
+            }
+        }
+    }
+    for _ in 0..(if thorough { 20000 } else { 400 }) {
+        let mut b = (r.next() as u32).to_le_bytes().to_vec();
+        if r.chance(1, 3) {
+            b[3] = r.pick(&[0xFEu8, 0xFD, 0xFF, 0xBA, 0xBB]);
+        }
+        for _ in 0..r.below(70) {
+            b.extend(ts_word(&mut r));
+        }
+        emit_whole(s, "word-then-tail", &b);
+    }
     // scaler-block length boundaries
     for len in [0usize, 1, 3, 4, 5, 243, 244, 245, 247, 248, 487, 488, 489] {
         let mut b = scalers(&mut r);
